@@ -6,9 +6,11 @@ package main
 import (
 	"context"
 	"crypto/sha256"
+	"encoding/asn1"
 	"encoding/hex"
 	"fmt"
 	"net/http"
+	"strings"
 	"testing"
 	"testing/synctest"
 	"time"
@@ -39,6 +41,66 @@ type fixtures struct {
 	inter   *pki.Entity
 	leaf    *pki.Entity
 	pre     *pki.Entity
+	quirks  []quirkFix // certificates / precertificates the parser accepts with a NON-fatal error
+}
+
+// quirkFix: a certificate and a precertificate carrying a tolerated quirk (x509.NonFatalErrors),
+// both issued by the fixtures' intermediate.  [tbs] is the precertificate's log entry.
+type quirkFix struct {
+	name string
+	cert []byte
+	pre  []byte
+	tbs  *entry // nil: the TBS of the precertificate does not have a non-fatal parse class
+}
+
+// quirk candidates: extensions of real-world certificates that the lenient parser is expected to
+// tolerate.  Every candidate is PROBED against the parser under test at start-up; only those it
+// classifies as non-fatal are used (same approach as harness/cmd/c07/entries.go).
+func quirkCandidates() []struct {
+	name  string
+	ext   pkixExt
+	noSAN bool
+} {
+	ip5, _ := asn1.Marshal([]asn1.RawValue{{Class: 2, Tag: 7, Bytes: []byte{10, 0, 0, 1, 9}}})
+	return []struct {
+		name  string
+		ext   pkixExt
+		noSAN bool
+	}{
+		{"san-ip-5-bytes", pkixExt{Id: []int{2, 5, 29, 17}, Value: ip5}, true},
+		{"empty-aia", pkixExt{Id: []int{1, 3, 6, 1, 5, 5, 7, 1, 1}, Value: []byte{0x30, 0x00}}, false},
+		{"empty-eku", pkixExt{Id: []int{2, 5, 29, 37}, Value: []byte{0x30, 0x00}}, false},
+		{"malformed-sct-list", pkixExt{Id: []int{1, 3, 6, 1, 4, 1, 11129, 2, 4, 2}, Value: []byte{0x04, 0x03, 0x00, 0x01, 0xff}}, false},
+		{"empty-crl-dp", pkixExt{Id: []int{2, 5, 29, 31}, Value: []byte{0x30, 0x00}}, false},
+		{"bad-policy", pkixExt{Id: []int{2, 5, 29, 32}, Value: []byte{0x30, 0x02, 0x30, 0x00}}, false},
+		{"name-constraints-on-leaf-garbage", pkixExt{Id: []int{2, 5, 29, 30}, Value: []byte{0x30, 0x04, 0xa0, 0x02, 0x30, 0x00}}, false},
+	}
+}
+
+func buildQuirks(inter, root *pki.Entity) []quirkFix {
+	var out []quirkFix
+	for i, q := range quirkCandidates() {
+		func() {
+			defer func() { recover() }() // pki.Issue panics when the parser calls the result fatal
+			o := pki.Opts{CN: "quirk-" + q.name + ".c12.example", KeyIdx: 37, ExtraExt: []pkixExt{q.ext}}
+			if !q.noSAN {
+				o.DNSNames = []string{fmt.Sprintf("quirk%d.c12.example", i)}
+			}
+			c := pki.Issue(o, inter)
+			if parseClass(c.DER, false) != "PNonFatal" {
+				return
+			}
+			qf := quirkFix{name: q.name, cert: c.DER}
+			o.CN, o.ExtraExt = "pre-"+o.CN, append(o.ExtraExt, pki.PoisonExt())
+			p := pki.Issue(o, inter)
+			qf.pre = p.DER
+			if e := deriveEntry([][]byte{p.DER, inter.DER, root.DER}, true); e != nil && parseClass(e.tbs, true) == "PNonFatal" {
+				qf.tbs = e
+			}
+			out = append(out, qf)
+		}()
+	}
+	return out
 }
 
 func buildFixtures() *fixtures {
@@ -53,6 +115,16 @@ func buildFixtures() *fixtures {
 	preIssuer := pki.Issue(pki.Opts{CN: "c12 pre-issuer", IsCA: true, KeyIdx: 35, EKUs: []x509.ExtKeyUsage{x509.ExtKeyUsageCertificateTransparency}}, inter)
 	pre2 := pki.Issue(pki.Opts{CN: "pre2.c12.example", KeyIdx: 36, ExtraExt: []pkixExt{pki.PoisonExt()}}, preIssuer)
 	f.root, f.inter, f.leaf, f.pre = root, inter, leaf, pre
+	f.quirks = buildQuirks(inter, root)
+	nt := 0
+	for _, q := range f.quirks {
+		if q.tbs != nil {
+			nt++
+		}
+	}
+	if len(f.quirks) < 2 || nt < 1 {
+		panic(fmt.Sprintf("c12: only %d certificate quirks (%d with a quirky TBS) are non-fatal for the parser", len(f.quirks), nt))
+	}
 	f.chains = []chainFix{
 		{"x509-3", [][]byte{leaf.DER, inter.DER, root.DER}},
 		{"x509-1", [][]byte{leaf.DER}},
@@ -62,6 +134,12 @@ func buildFixtures() *fixtures {
 		{"pre-noissuer", [][]byte{pre.DER}},
 		{"empty", nil},
 		{"garbage", [][]byte{[]byte("this is not a certificate")}},
+	}
+	for _, q := range f.quirks {
+		f.chains = append(f.chains, chainFix{"x509-quirk:" + q.name, [][]byte{q.cert, inter.DER, root.DER}})
+		if q.tbs != nil {
+			f.chains = append(f.chains, chainFix{"pre-quirk:" + q.name, [][]byte{q.pre, inter.DER, root.DER}})
+		}
 	}
 	return f
 }
@@ -147,7 +225,76 @@ func (quiet) Printf(string, ...interface{}) {}
 
 const logURI = "http://log.c12.example/ct"
 
-func newClient(sc *script, key *logKey, usePEM bool) *client.LogClient {
+// switchRT hands every request to the script of the CURRENT call: one client, many calls
+type switchRT struct{ cur *script }
+
+func (s *switchRT) RoundTrip(req *http.Request) (*http.Response, error) { return s.cur.RoundTrip(req) }
+
+// session: ONE client (plain and temporal over the same transport) that lives through a history
+// of calls; [trail] is what was served / returned so far, for the replay files.
+type session struct {
+	rt    *switchRT
+	key   *logKey
+	lc    *client.LogClient
+	tlc   *client.TemporalLogClient
+	name  string
+	trail []string
+}
+
+func newSession(name string, key *logKey, usePEM bool) *session {
+	rt := &switchRT{}
+	return &session{rt: rt, key: key, name: name, lc: newClientRT(rt, key, usePEM), tlc: newTemporalClientRT(rt, key)}
+}
+
+// use makes [sc] the script of the next call of the session
+func (s *session) use(sc *script) { s.rt.cur = sc }
+
+func (s *session) did(step, class string) { s.trail = append(s.trail, step+" -> "+class) }
+
+// history: what a case of a session records about the calls made before it on the same client
+func (s *session) history() interface{} {
+	if s == nil {
+		return nil
+	}
+	return map[string]interface{}{"session": s.name, "earlier_calls_on_this_client": append([]string{}, s.trail...)}
+}
+
+// plain / temporal: the client a call uses: the session's own, or a fresh one over [sc]
+func (s *session) plain(sc *script, key *logKey, usePEM bool) *client.LogClient {
+	if s != nil {
+		return s.lc
+	}
+	return newClient(sc, key, usePEM)
+}
+
+func (s *session) temporal(sc *script, key *logKey) *client.TemporalLogClient {
+	if s != nil {
+		return s.tlc
+	}
+	return newTemporalClient(sc, key)
+}
+
+func (s *session) tags() []string {
+	if s == nil {
+		return []string{"history:fresh-client"}
+	}
+	n := len(s.trail)
+	if n > 4 {
+		n = 4
+	}
+	return []string{"history:session=" + s.name, fmt.Sprintf("history:earlier-calls=%d", n)}
+}
+
+func (s *session) after() string {
+	if s == nil || len(s.trail) == 0 {
+		return ""
+	}
+	return fmt.Sprintf(" after %d earlier call(s) on the same client [%s: %s]", len(s.trail), s.name, strings.Join(s.trail, "; "))
+}
+
+func newClient(sc *script, key *logKey, usePEM bool) *client.LogClient { return newClientRT(sc, key, usePEM) }
+
+func newClientRT(sc http.RoundTripper, key *logKey, usePEM bool) *client.LogClient {
 	opts := jsonclient.Options{Logger: quiet{}}
 	if key != nil {
 		if usePEM {
@@ -163,7 +310,9 @@ func newClient(sc *script, key *logKey, usePEM bool) *client.LogClient {
 	return lc
 }
 
-func newTemporalClient(sc *script, key *logKey) *client.TemporalLogClient {
+func newTemporalClient(sc *script, key *logKey) *client.TemporalLogClient { return newTemporalClientRT(sc, key) }
+
+func newTemporalClientRT(sc http.RoundTripper, key *logKey) *client.TemporalLogClient {
 	shard := &configpb.LogShardConfig{Uri: logURI}
 	if key != nil {
 		shard.PublicKeyDer = key.spki
